@@ -751,8 +751,29 @@ Section B.
     intros st s b. unfold branch_pairs; simpl. rewrite flat_map_app. simpl. rewrite app_nil_r. reflexivity.
   Qed.
 
+  Lemma branch_pre_spec : forall orc st s t st1,
+    good st -> branch_pre u false false false orc st s t = UOk st1 ->
+    ext st st1 /\ good st1 /\ (forall p, pend_ok st p -> pend_ok st1 p).
+  Proof.
+    intros orc st s t st1 G H. unfold branch_pre in H.
+    destruct (negb (N.eqb s kSTART) && is_pass st s &&
+              (false || match out_ty st s with None => true | Some _ => false end)) eqn:C.
+    - apply andb_true_iff in C. destruct C as [_ C]. simpl in C.
+      destruct (out_ty st s) eqn:O; [discriminate|].
+      pose proof (out_none_in_none st s (proj1 G) O) as Is.
+      pose proof (set_pass_ty_ext st s t (proj1 G) Is) as X0.
+      assert (G0 : good (set_pass_ty st s t)).
+      { split; [apply set_pass_ty_nodes_ok; [exact (proj1 G) | exact Is]|].
+        intros p Hp. eapply ext_ends_ok; [exact X0|]. apply (proj2 G). exact Hp. }
+      unfold update_sel in H.
+      destruct (update_tvm_spec _ _ _ G0 H) as [X1 [G1 [_ [PO1 _]]]].
+      split; [eapply ext_trans; eauto|]. split; [exact G1|].
+      intros p Hp. apply PO1. eapply ext_pend_ok_same_tvm; [exact X0 | apply incl_refl | exact Hp].
+    - inversion H; subst st1. split; [apply ext_refl|]. split; [exact G | auto].
+  Qed.
+
   Lemma add_branch_spec : forall orc st s t ends choice st' ok,
-    inv st -> add_branch u false false orc st s t ends choice = (st', ok) -> inv st' /\ grow st st'.
+    inv st -> add_branch u false false false orc st s t ends choice = (st', ok) -> inv st' /\ grow st st'.
   Proof.
     intros orc st s t ends choice st' ok I H. unfold add_branch in H.
     destruct (g_err st); [inversion H; subst; split; [exact I | apply grow_refl]|].
@@ -762,86 +783,49 @@ Section B.
     destruct (Nat.eqb (List.length ends) 1); [fail_caseg H I|].
     apply has_or in Hs.
     pose proof (inv_good _ I) as G.
-    set (st1 := if negb (N.eqb s kSTART) && is_pass st s &&
-                   (false || match out_ty st s with None => true | Some _ => false end)
-                then set_pass_ty st s t else st) in *.
-    assert (A1 : ext st st1 /\ good st1).
-    { unfold st1. destruct (negb (N.eqb s kSTART) && is_pass st s &&
-                   (false || match out_ty st s with None => true | Some _ => false end)) eqn:C.
-      - apply andb_true_iff in C. destruct C as [_ C]. simpl in C.
-        destruct (out_ty st s) eqn:O; [discriminate|].
-        pose proof (out_none_in_none st s (proj1 G) O) as Is.
-        split; [apply set_pass_ty_ext; [exact (proj1 G) | exact Is]|].
-        split; [apply set_pass_ty_nodes_ok; [exact (proj1 G) | exact Is]|].
-        intros p Hp. eapply ext_ends_ok; [apply set_pass_ty_ext; [exact (proj1 G) | exact Is]|].
-        apply (proj2 G). exact Hp.
-      - split; [apply ext_refl | exact G]. }
-    destruct A1 as [X1 G1].
-    assert (TV1 : g_tvm st1 = g_tvm st).
-    { unfold st1. destruct (negb (N.eqb s kSTART) && is_pass st s &&
-                   (false || match out_ty st s with None => true | Some _ => false end)); reflexivity. }
+    destruct (branch_pre u false false false (fun n => orc 0%nat (S n)) st s t) as [st1| |] eqn:BP;
+      [|fail_caseg H I|fail_caseg H I].
+    destruct (branch_pre_spec _ _ _ _ _ G BP) as [X1 [G1 PO1]].
     destruct (out_ty st1 s) as [a|] eqn:Oa; [|rewrite check_none_l in H; fail_caseg H I].
+    assert (FIN : forall cv st2,
+      (check_assignable u (Some a) (Some t) <> MustNot) ->
+      (check_assignable u (Some a) (Some t) = May -> In t cv) ->
+      branch_ends u false orc 0 st1 s (order_keys (orc 0%nat 0%nat) ends) = Some st2 ->
+      inv (set_branches st2 (g_branches st2 ++ [(s, {| b_ty := t; b_ends := ends; b_choice := choice; b_conv := cv |})])) /\
+      grow st (set_branches st2 (g_branches st2 ++ [(s, {| b_ty := t; b_ends := ends; b_choice := choice; b_conv := cv |})]))).
+    { intros cv st2 HC HM BE.
+      assert (Hs1 : has_node st1 s = true \/ s = kSTART).
+      { destruct Hs as [Hs|Hs]; [left; eapply ext_has_node; eauto | right; exact Hs]. }
+      destruct (branch_ends_spec _ _ _ _ _ _ G1 Hs1 BE) as [X2 [G2 [PO2 E2]]].
+      assert (X : ext st st2) by (eapply ext_trans; eauto).
+      set (b := {| b_ty := t; b_ends := ends; b_choice := choice; b_conv := cv |}).
+      split.
+      + constructor.
+        * exact (proj1 G2).
+        * exact (proj2 G2).
+        * intros p Hp. unfold conns in Hp. rewrite branch_pairs_app in Hp.
+          change (g_data (set_branches st2 (g_branches st2 ++ [(s, b)]))) with (g_data st2) in Hp.
+          change (pend_ok st2 p /\ ends_ok st2 p).
+          rewrite app_assoc in Hp. apply in_app_or in Hp. destruct Hp as [Hp|Hp].
+          -- change (In p (conns st2)) in Hp. rewrite (conns_ext _ _ X) in Hp.
+             destruct (inv_conns _ I p Hp) as [A B]. split; [|eapply ext_ends_ok; eauto].
+             apply PO2. apply PO1. exact A.
+          -- apply in_map_iff in Hp. destruct Hp as [e [Ep He]]. subst p. simpl in He.
+             apply E2. apply In_order_keys. exact He.
+        * intros s0 b0 Hb. change (In (s0, b0) (g_branches st2 ++ [(s, b)])) in Hb.
+          change (branch_ok st2 s0 b0). apply in_app_or in Hb. destruct Hb as [Hb|[Hb|[]]].
+          -- rewrite (ext_branches _ _ X) in Hb. eapply ext_branch_ok; [exact X|]. apply (inv_branches _ I); exact Hb.
+          -- inversion Hb; subst s0 b0. split.
+             ++ destruct Hs as [Hs|Hs]; [left; eapply ext_has_node; eauto | right; exact Hs].
+             ++ exists a. split; [eapply ext_out_ty; [exact X2 | exact Oa]|]. unfold b; simpl. split; [exact HC | exact HM].
+        * change (g_compiled st2 = true -> g_tvm st2 = [] /\ all_typed st2).
+          rewrite (ext_compiled _ _ X), CP. discriminate.
+      + eapply grow_trans; [apply ext_grow; exact X|]. apply same_nodes_grow; reflexivity. }
     destruct (check_assignable u (Some a) (Some t)) eqn:C; [fail_caseg H I| |].
-    - (* Must *)
-      destruct (branch_ends u false orc 0 st1 s (order_keys (orc 0%nat 0%nat) ends)) as [st2|] eqn:BE; [|fail_caseg H I].
-      inversion H; subst st' ok; clear H.
-      assert (Hs1 : has_node st1 s = true \/ s = kSTART).
-      { destruct Hs as [Hs|Hs]; [left; eapply ext_has_node; eauto | right; exact Hs]. }
-      destruct (branch_ends_spec _ _ _ _ _ _ G1 Hs1 BE) as [X2 [G2 [PO2 E2]]].
-      assert (X : ext st st2) by (eapply ext_trans; eauto).
-      set (b := {| b_ty := t; b_ends := ends; b_choice := choice; b_conv := [] |}).
-      split.
-      + constructor.
-        * exact (proj1 G2).
-        * exact (proj2 G2).
-        * intros p Hp. unfold conns in Hp. rewrite branch_pairs_app in Hp.
-          change (g_data (set_branches st2 (g_branches st2 ++ [(s, b)]))) with (g_data st2) in Hp.
-          change (pend_ok st2 p /\ ends_ok st2 p).
-          rewrite app_assoc in Hp. apply in_app_or in Hp. destruct Hp as [Hp|Hp].
-          -- change (In p (conns st2)) in Hp. rewrite (conns_ext _ _ X) in Hp.
-             destruct (inv_conns _ I p Hp) as [A B]. split; [|eapply ext_ends_ok; eauto].
-             apply PO2. eapply ext_pend_ok_same_tvm; [exact X1 | rewrite TV1; apply incl_refl | exact A].
-          -- apply in_map_iff in Hp. destruct Hp as [e [Ep He]]. subst p. simpl in He.
-             apply E2. apply In_order_keys. exact He.
-        * intros s0 b0 Hb. change (In (s0, b0) (g_branches st2 ++ [(s, b)])) in Hb.
-          change (branch_ok st2 s0 b0). apply in_app_or in Hb. destruct Hb as [Hb|[Hb|[]]].
-          -- rewrite (ext_branches _ _ X) in Hb. eapply ext_branch_ok; [exact X|]. apply (inv_branches _ I); exact Hb.
-          -- inversion Hb; subst s0 b0. split.
-             ++ destruct Hs as [Hs|Hs]; [left; eapply ext_has_node; eauto | right; exact Hs].
-             ++ exists a. split; [eapply ext_out_ty; [exact X2 | exact Oa]|]. unfold b; simpl. rewrite C. split; [discriminate | discriminate].
-        * change (g_compiled st2 = true -> g_tvm st2 = [] /\ all_typed st2).
-          rewrite (ext_compiled _ _ X), CP. discriminate.
-      + eapply grow_trans; [apply ext_grow; exact X|]. apply same_nodes_grow; reflexivity.
-    - (* May *)
-      destruct (branch_ends u false orc 0 st1 s (order_keys (orc 0%nat 0%nat) ends)) as [st2|] eqn:BE; [|fail_caseg H I].
-      inversion H; subst st' ok; clear H.
-      assert (Hs1 : has_node st1 s = true \/ s = kSTART).
-      { destruct Hs as [Hs|Hs]; [left; eapply ext_has_node; eauto | right; exact Hs]. }
-      destruct (branch_ends_spec _ _ _ _ _ _ G1 Hs1 BE) as [X2 [G2 [PO2 E2]]].
-      assert (X : ext st st2) by (eapply ext_trans; eauto).
-      set (b := {| b_ty := t; b_ends := ends; b_choice := choice; b_conv := [t] |}).
-      split.
-      + constructor.
-        * exact (proj1 G2).
-        * exact (proj2 G2).
-        * intros p Hp. unfold conns in Hp. rewrite branch_pairs_app in Hp.
-          change (g_data (set_branches st2 (g_branches st2 ++ [(s, b)]))) with (g_data st2) in Hp.
-          change (pend_ok st2 p /\ ends_ok st2 p).
-          rewrite app_assoc in Hp. apply in_app_or in Hp. destruct Hp as [Hp|Hp].
-          -- change (In p (conns st2)) in Hp. rewrite (conns_ext _ _ X) in Hp.
-             destruct (inv_conns _ I p Hp) as [A B]. split; [|eapply ext_ends_ok; eauto].
-             apply PO2. eapply ext_pend_ok_same_tvm; [exact X1 | rewrite TV1; apply incl_refl | exact A].
-          -- apply in_map_iff in Hp. destruct Hp as [e [Ep He]]. subst p. simpl in He.
-             apply E2. apply In_order_keys. exact He.
-        * intros s0 b0 Hb. change (In (s0, b0) (g_branches st2 ++ [(s, b)])) in Hb.
-          change (branch_ok st2 s0 b0). apply in_app_or in Hb. destruct Hb as [Hb|[Hb|[]]].
-          -- rewrite (ext_branches _ _ X) in Hb. eapply ext_branch_ok; [exact X|]. apply (inv_branches _ I); exact Hb.
-          -- inversion Hb; subst s0 b0. split.
-             ++ destruct Hs as [Hs|Hs]; [left; eapply ext_has_node; eauto | right; exact Hs].
-             ++ exists a. split; [eapply ext_out_ty; [exact X2 | exact Oa]|]. unfold b; simpl. rewrite C. split; [discriminate | intros _; left; reflexivity].
-        * change (g_compiled st2 = true -> g_tvm st2 = [] /\ all_typed st2).
-          rewrite (ext_compiled _ _ X), CP. discriminate.
-      + eapply grow_trans; [apply ext_grow; exact X|]. apply same_nodes_grow; reflexivity.
+    - destruct (branch_ends u false orc 0 st1 s (order_keys (orc 0%nat 0%nat) ends)) as [st2|] eqn:BE; [|fail_caseg H I].
+      inversion H; subst st' ok; clear H. apply FIN; [discriminate | discriminate | reflexivity].
+    - destruct (branch_ends u false orc 0 st1 s (order_keys (orc 0%nat 0%nat) ends)) as [st2|] eqn:BE; [|fail_caseg H I].
+      inversion H; subst st' ok; clear H. apply FIN; [discriminate | intros _; left; reflexivity | reflexivity].
   Qed.
 
   (* ---- Compile *)
@@ -890,8 +874,8 @@ Section B.
   Proof.
     induction ops as [|o rest IH]; intros orcs i st st' oks I H; unfold run_ops in *; simpl in H.
     - inversion H; subst; split; [exact I | apply grow_refl].
-    - destruct (step_sel u false false (orcs i) st o) as [st1 ok] eqn:Hs.
-      destruct (run_ops_sel u false false orcs (S i) st1 rest) as [st2 oks2] eqn:R.
+    - destruct (step_sel u false false false (orcs i) st o) as [st1 ok] eqn:Hs.
+      destruct (run_ops_sel u false false false orcs (S i) st1 rest) as [st2 oks2] eqn:R.
       inversion H; subst st' oks; clear H.
       destruct (step_spec _ _ _ _ _ I Hs) as [I1 G1].
       destruct (IH _ _ _ _ _ I1 R) as [I2 G2].
@@ -905,11 +889,11 @@ Section B.
     (st2, oks1 ++ oks2).
   Proof.
     induction ops1 as [|o rest IH]; intros ops2 orcs i st; unfold run_ops in *; simpl.
-    - rewrite Nat.add_0_r. destruct (run_ops_sel u false false orcs i st ops2); reflexivity.
-    - destruct (step_sel u false false (orcs i) st o) as [st1 ok].
-      rewrite IH. destruct (run_ops_sel u false false orcs (S i) st1 rest) as [st2 oks2].
+    - rewrite Nat.add_0_r. destruct (run_ops_sel u false false false orcs i st ops2); reflexivity.
+    - destruct (step_sel u false false false (orcs i) st o) as [st1 ok].
+      rewrite IH. destruct (run_ops_sel u false false false orcs (S i) st1 rest) as [st2 oks2].
       replace (S i + List.length rest)%nat with (i + S (List.length rest))%nat by lia.
-      destruct (run_ops_sel u false false orcs (i + S (List.length rest)) st2 ops2); reflexivity.
+      destruct (run_ops_sel u false false false orcs (i + S (List.length rest)) st2 ops2); reflexivity.
   Qed.
 
   (* the graph a successful Compile saw: nothing is pending *)
